@@ -129,13 +129,21 @@ fn hard_alloc_violation(n: usize) {
 pub struct Slot {
     started_ms: AtomicU64, // 0 = idle
     case: Mutex<Option<Case>>,
+    /// set instead of `case` while a graph explorer has a Stream call in flight
+    stream: Mutex<Option<Arc<StreamLog>>>,
+}
+/// Op list of one explored Stream object (see cases::StreamH::new_logged).
+pub struct StreamLog {
+    pub opts: crate::cases::Opts,
+    pub sk: crate::cases::Sk,
+    pub ops: Mutex<Vec<crate::cases::SOp>>,
 }
 static SLOTS: Mutex<Vec<Arc<Slot>>> = Mutex::new(Vec::new());
 static T0: OnceLock<Instant> = OnceLock::new();
 pub static PROP: OnceLock<String> = OnceLock::new();
 thread_local! {
     static MY_SLOT: Arc<Slot> = {
-        let s = Arc::new(Slot { started_ms: AtomicU64::new(0), case: Mutex::new(None) });
+        let s = Arc::new(Slot { started_ms: AtomicU64::new(0), case: Mutex::new(None), stream: Mutex::new(None) });
         SLOTS.lock().unwrap().push(s.clone());
         s
     };
@@ -143,8 +151,15 @@ thread_local! {
 fn now_ms() -> u64 {
     T0.get_or_init(Instant::now).elapsed().as_millis() as u64 + 1
 }
+pub fn slot_enter_stream(l: &Arc<StreamLog>) {
+    MY_SLOT.with(|s| {
+        *s.stream.lock().unwrap() = Some(l.clone());
+        s.started_ms.store(now_ms(), Ordering::SeqCst);
+    });
+}
 pub fn slot_enter(c: &Case) {
     MY_SLOT.with(|s| {
+        *s.stream.lock().unwrap() = None;
         *s.case.lock().unwrap() = Some(c.clone());
         s.started_ms.store(now_ms(), Ordering::SeqCst);
     });
@@ -167,7 +182,10 @@ pub fn start_watchdog() {
             let st = s.started_ms.load(Ordering::SeqCst);
             if st != 0 && now_ms().saturating_sub(st) > HANG_LIMIT_MS {
                 let prop = PROP.get().cloned().unwrap_or_else(|| "C07".into());
-                let c = s.case.lock().unwrap().clone();
+                let c = match s.stream.lock().unwrap().clone() {
+                    Some(l) => Some(Case::Stream { opts: l.opts, sk: l.sk.clone(), ops: l.ops.lock().unwrap().clone() }),
+                    None => s.case.lock().unwrap().clone(),
+                };
                 let path = match c {
                     Some(c) => write_replay(&prop, &c, &format!("terminates (watchdog {} ms)", HANG_LIMIT_MS), &Value::Null),
                     None => "<none>".into(),
